@@ -82,6 +82,7 @@ Definition rerr_eqb (a b : rerr) : bool :=
   | ECallLocal f, ECallLocal g => neqb f g
   | EUndefined f, EUndefined g => neqb f g
   | ETooManyArgs f, ETooManyArgs g => neqb f g
+  | ENotFunc f, ENotFunc g => neqb f g
   | EUse a1 v1 b1, EUse a2 v2 b2 => ty_eqb a1 a2 && neqb v1 v2 && ty_eqb b1 b2
   | EPassVar a1 v1 b1, EPassVar a2 v2 b2 => ty_eqb a1 a2 && neqb v1 v2 && ty_eqb b1 b2
   | EPassExpr, EPassExpr => true
@@ -108,8 +109,9 @@ Definition one_error (cut : nat) (P : program) : bool :=
    ([pi]), what the algorithm sees is the sorted list: the implementation is the
    generic resolver of C16 run with the oracle [sorting pi]. *)
 Definition sorting (pi : oracle) : oracle := fun k l => sort_names (pi k l).
-Definition sort_oracle : oracle := fun _ l => sort_names l.
-Definition resolve_impl (pi : oracle) (P : program) : rres final := resolve (sorting pi) P.
+(* the sorted order itself is C16's [name_order_oracle]; [resolve_sorting pi] is the
+   implementation when the maps deliver their keys as [pi] says *)
+Definition resolve_sorting (pi : oracle) (P : program) : rres final := resolve (sorting pi) P.
 
 (* ---------- the names kept for the disassembler ---------------------------- *)
 
@@ -137,7 +139,7 @@ Definition func_keys (P : program) : list name := dedup (List.map n_name (p_nati
 (* function f(a) { natv(a) } with the Go function natv: both have index 0 *)
 Definition n_natv : name := [110; 97; 116; 118].
 Definition native_clash : program :=
-  {| p_natives := [ {| n_name := n_natv; n_in := 1; n_variadic := false |} ];
+  {| p_natives := [ {| n_name := n_natv; n_in := 1; n_variadic := false; n_func := true |} ];
      p_funcs := [ {| f_name := [102]; f_params := [[97]]; f_body := [Call n_natv [ArgVar [97]]] |} ];
      p_main := [] |}.
 
